@@ -23,6 +23,9 @@
 //   X <text>
 #include <hgraph/lib/std/standard_types.h>
 #include <hgraph/lib/testing/runtime_support.h>
+#include <hgraph/runtime/lifecycle_observer.h>
+#include <hgraph/runtime/node_scheduler.h>
+#include <hgraph/runtime/push_source_node.h>
 #include <hgraph/runtime/runtime.h>
 #include <hgraph/types/metadata/type_registry.h>
 #include <hgraph/types/static_node.h>
@@ -149,6 +152,12 @@ namespace
         const long long end_ms    = geti(kv, "end_ms", 3000);
         const long long slice_us  = geti(kv, "slice_us", 0);
         const int nsrc            = (int)std::max<long long>(1, geti(kv, "sources", 1));   // push sources in ONE graph
+        std::vector<std::size_t> caps((std::size_t)nsrc, cap);                               // caps=a,b,..: one capacity per source
+        {
+            const auto cs = split(gets(kv, "caps", ""), ',');
+            for (std::size_t i = 0; i < cs.size() && i < caps.size(); ++i)
+                if (!cs[i].empty()) caps[i] = (std::size_t)std::atoll(cs[i].c_str());
+        }
 
         const auto *ts_int   = ts_type<TS<Int>>();
         const auto *ts_tuple = ts_type<TS<HomogeneousTuple<Int>>>();
@@ -213,8 +222,8 @@ namespace
         for (int src = 0; src < nsrc; ++src)
         {
             PushSourcePolicy pol_s = policy == "conflate" ? make_push_source_conflating_policy(*ts_int)
-                                     : burst              ? make_push_source_burst_policy(*ts_tuple, cap)
-                                                          : make_push_source_queue_policy(*ts_int, cap);
+                                     : burst              ? make_push_source_burst_policy(*ts_tuple, caps[(std::size_t)src])
+                                                          : make_push_source_queue_policy(*ts_int, caps[(std::size_t)src]);
             builder.add_node(make_push_source_node(*out_ts, pol_s, [&, src](PushSourceSender s) {
                 senders[(std::size_t)src] = std::move(s);
                 if (started_n.fetch_add(1) + 1 == nsrc) started.store(true, std::memory_order_release);
@@ -342,6 +351,118 @@ namespace
             const bool ok = (i % 2 == 0) ? senders[0].try_send(Int{id}) : senders[0].send_blocking(Int{id});
             tr.line("P " + std::to_string(tid()) + " late " + std::to_string(id) + " " + std::to_string(c) + " " + std::to_string(tr.now()) + " " + (ok ? "1" : "0"));
         }
+    }
+
+    // -------------------------------------------------------------------------------------------
+    // push source that ALSO owns timers (kind=pstimer): node 0 is a push source built with the scheduler extension; its start
+    // hook arms wake-ups at start + timers=<us,us,..>. A producer pushes values (to that source, or - two=1 - to a second,
+    // plain push source of the same graph) before the timers fall due. The run ends at its end time. Lines:
+    //   R ps 0 <when_us> abs <wall_us>     one per armed wake-up
+    //   T ps <evaltime_us> <wall_us> <steady_ts> abs   every evaluation of node 0 (lifecycle observer)
+    //   D / P as for the push scenario
+    // -------------------------------------------------------------------------------------------
+    struct Node0Observer : LifecycleObserver
+    {
+        Trace   *tr{nullptr};
+        DateTime start{};
+        void on_before_node_evaluation(const NodeView &node) override
+        {
+            if (node.node_index() != 0) return;
+            const DateTime et   = node.graph().evaluation_time();
+            const DateTime wall = hgraph::testing::wall_now();
+            tr->line("T ps " + std::to_string(us_since(et, start)) + " " + std::to_string(us_since(wall, start)) + " " +
+                     std::to_string(tr->now()) + " abs");
+        }
+    };
+
+    void run_pstimer(const std::map<std::string, std::string> &kv, Trace &tr)
+    {
+        const long long msgs   = geti(kv, "msgs", 5);
+        const long long gap_us = geti(kv, "gap_us", 5000);
+        const long long end_ms = geti(kv, "end_ms", 150);
+        const bool two         = geti(kv, "two", 0) != 0;
+        std::vector<long long> timers;
+        for (const auto &t : split(gets(kv, "timers", "40000"), ',')) if (!t.empty()) timers.push_back(std::atoll(t.c_str()));
+        const auto *ts_int    = ts_type<TS<Int>>();
+        const auto *in_schema = hgraph::testing::single_input_schema(*ts_int);
+        PushSourceSender sender0, sender1;
+        std::atomic<int> started_n{0};
+        DateTime start_time = hgraph::testing::wall_now();
+
+        PushSourceNodeExtension extension;
+        extension.uses_scheduler = true;
+        extension.on_start = [&](PushSourceSender s, const NodeView &view, DateTime st) {
+            sender0 = std::move(s);
+            const NodeScheduler sched{view.scheduler_state(), view.graph_value(), view.node_index(), st,
+                                      view.started(), view.evaluation_clock(), /*supports_wall_clock=*/true};
+            int k = 0;
+            for (long long t : timers)
+            {
+                sched.schedule(st + TimeDelta{t}, "w" + std::to_string(k++));
+                tr.line("R ps 0 " + std::to_string(t) + " abs " + std::to_string(us_since(hgraph::testing::wall_now(), st)));
+            }
+            started_n.fetch_add(1);
+        };
+        GraphBuilder builder;
+        builder.add_node(make_push_source_node_with_view(*ts_int, make_push_source_queue_policy(*ts_int, 0), std::move(extension)));
+        if (two)
+            builder.add_node(make_push_source_node(*ts_int, make_push_source_queue_policy(*ts_int, 0), [&](PushSourceSender s) {
+                sender1 = std::move(s);
+                started_n.fetch_add(1);
+            }));
+        const int nsrc = two ? 2 : 1;
+        for (int src = 0; src < nsrc; ++src)
+        {
+            NodeTypeMetaData sk;
+            sk.display_name = "verif_sink";
+            sk.input_schema = in_schema;
+            sk.node_kind    = NodeKind::Sink;
+            NodeCallbacks cbs;
+            cbs.evaluate = [&, src](const NodeView &view, DateTime evaluation_time) {
+                auto root   = view.input(evaluation_time);
+                auto bundle = root.as_bundle();
+                auto input  = bundle[0];
+                const DateTime wall = hgraph::testing::wall_now();
+                tr.line("D " + std::to_string(us_since(evaluation_time, start_time)) + " " + std::to_string(us_since(wall, start_time)) + " " +
+                        std::to_string(tr.now()) + " -1 1 " + std::to_string((long long)input.value().checked_as<Int>()) + " s" + std::to_string(src));
+            };
+            builder.add_node(NodeBuilder::native(std::move(sk), std::move(cbs), hgraph::testing::single_input_endpoint(*in_schema, *ts_int)));
+            builder.add_edge(GraphEdge{.source_node = make_graph_edge_source((std::size_t)src), .source_path = {},
+                                       .target_node = (std::size_t)(nsrc + src), .target_path = {0}});
+        }
+        Node0Observer obs;
+        obs.tr = &tr;
+        start_time = hgraph::testing::wall_now();
+        obs.start  = start_time;
+        GraphExecutorBuilder eb;
+        eb.graph_builder(std::move(builder)).mode(GraphExecutorMode::RealTime).start_time(start_time)
+            .end_time(start_time + TimeDelta{end_ms * 1000}).add_lifecycle_observer(&obs);
+        auto executor = eb.make_executor();
+        auto view     = executor.view();
+        std::atomic<bool> run_returned{false};
+        std::thread producer([&] {
+            while (started_n.load() < nsrc && !run_returned.load()) std::this_thread::yield();
+            PushSourceSender s = two ? sender1 : sender0;
+            for (long long i = 0; i < msgs && !run_returned.load(); ++i)
+            {
+                std::this_thread::sleep_for(std::chrono::microseconds(gap_us));
+                const long long id = 1000000 + i;
+                const long long c  = tr.now();
+                const bool ok      = s.send_blocking(Int{id});
+                tr.line("P " + std::to_string(tid()) + " block " + std::to_string(id) + " " + std::to_string(c) + " " + std::to_string(tr.now()) +
+                        " " + (ok ? "1" : "0"));
+            }
+        });
+        const long long rs = tr.now();
+        std::string status = "ok";
+        try { view.run(); }
+        catch (const std::exception &e) { status = "error"; tr.line(std::string("X ") + e.what()); }
+        const long long rr = tr.now();
+        const DateTime wall_end = hgraph::testing::wall_now();
+        run_returned.store(true);
+        tr.line("RUN " + std::to_string(rs) + " " + std::to_string(rr) + " " + status + " " + std::to_string((long long)(start_time - DateTime{}).count()) +
+                " " + std::to_string(us_since(wall_end, start_time)));
+        producer.join();
     }
 
     // -------------------------------------------------------------------------------------------
@@ -604,6 +725,7 @@ int main(int argc, char **argv)
         {
             if (gets(kv, "kind", "push") == "push") run_push(kv, tr);
             else if (gets(kv, "kind", "push") == "cpush") run_cpush(kv, tr);
+            else if (gets(kv, "kind", "push") == "pstimer") run_pstimer(kv, tr);
             else run_timers2(kv, tr);
         }
         catch (const std::exception &e) { tr.line(std::string("X scenario-failed ") + e.what()); }
